@@ -646,18 +646,22 @@ def constructor_binding_rule(repo: Repo, rep, P: str):
 # ------------------------------------------------------------------------------------ R4
 def default_args_rule(repo: Repo, rep, P: str):
     n = 0
+    n_fns = 0
     for rel, sf in sorted(repo.files.items()):
         if not sf.modname.startswith("rv") or sf.modname.startswith(("rv.tools", "rv._vendor")):
             continue
         for fn in ast.walk(sf.tree):
             if isinstance(fn, (ast.FunctionDef, ast.AsyncFunctionDef, ast.Lambda)):
+                n_fns += 1
                 for d in list(fn.args.defaults) + [x for x in fn.args.kw_defaults if x is not None]:
                     n += 1
                     if is_mutable_value(repo, None, d):
                         rep.violation(f"{P}.R4", f"{rel}:{getattr(fn, 'name', '<lambda>')}", f"default {norm(d)}",
                                       "mutable default argument: one object is shared by every call (and every instance constructed with the default)",
                                       f"{rel}:{d.lineno}")
-    rep.count("default_arguments_scanned", n, 28)
+    # the population is the functions of the package (the number of defaults among them is whatever the code has)
+    rep.count("functions_scanned_for_defaults", n_fns, 300)
+    rep.count("default_arguments_scanned", n, 10)
     rep.ok(f"{P}.R4", "rv/**", f"{n} default arguments", "none is a mutable container")
     # attrs-style defaults
     for c in _rv_classes(repo):
